@@ -49,11 +49,11 @@ def parseConn (s : String) : Option ConnRes :=
   | _ => none
 
 def parseRecv (s : String) : Option RecvRes :=
-  if s == "a" then some .eagain else if s == "x" then some .err else
+  if s == "a" then some .eagain else if s.startsWith "x" then some .err else   -- x / x<errno>: a handled errno
   if s.startsWith "d" then (s.drop 1).toString.toNat?.map .data else none
 
 def parseSend (s : String) : Option Wrap.SendRes :=
-  if s == "a" then some .eagain else if s == "x" then some .err else if s == "p" then some .epipe else
+  if s == "a" then some .eagain else if s.startsWith "x" then some .err else if s == "p" then some .epipe else
   if s.startsWith "s" then (s.drop 1).toString.toNat?.map .sent else none
 
 def initWorld (maxc buf chani : Nat) (occ : List Nat) : World :=
@@ -131,8 +131,14 @@ def step (w : World) (line : String) : World × List String :=
         | none => fun _ => io
         | some l => fun i => if l.contains i then io else quietIo
       let w2 := w.run (roundHead e w.flows.length)
-      let n := (roundTail w2 e k sel ios).length - k
-      let w1 := w.round e k sel ios
+      -- callbacks actually made: the pass's callback steps that find a handler
+      let (w1, n) := (roundTail w2 e k c sel ios).foldl (fun (acc : World × Nat) st =>
+        let made := match st with
+          | .cb e' i _ => (match acc.1.flows[i]? with
+              | some f => if acc.1.died.isNone && (handlerAt e' f).isSome then 1 else 0
+              | none => 0)
+          | _ => 0
+        (acc.1.step st, acc.2 + made)) (w2, 0)
       (w1, (showWorld w1).map (· ++ s!" wants=none cbs={n}"))
     | _, _, _, _, _ => (w, ["bad-op"])
   | ["#flush"] => (w, [])
